@@ -900,6 +900,64 @@ Proof.
 Qed.
 
 (* ---------- what !merge does to two lists, stated on the spec ---------- *)
+(* ---------- without !merge marks the decorated update is the plain update of C02 ---------- *)
+Section MInd.
+  Variable P : mplain -> Prop.
+  Hypothesis Hs : forall v, P (MS v).
+  Hypothesis Hd : forall l, Forall (fun kc => P (snd kc)) l -> P (MD l).
+  Hypothesis Hl : forall b l, Forall P l -> P (ML b l).
+  Fixpoint mplain_ind' (p : mplain) : P p :=
+    match p with
+    | MS v => Hs v
+    | MD l => Hd l ((fix go (l : list (key * mplain)) : Forall (fun kc => P (snd kc)) l :=
+                       match l with [] => Forall_nil _ | kc :: r => Forall_cons kc (mplain_ind' (snd kc)) (go r) end) l)
+    | ML b l => Hl b l ((fix go (l : list mplain) : Forall P l :=
+                       match l with [] => Forall_nil _ | c :: r => Forall_cons c (mplain_ind' c) (go r) end) l)
+    end.
+End MInd.
+
+(* no list is in merge mode *)
+Fixpoint no_merge (m : mplain) : bool :=
+  match m with
+  | MS _ => true
+  | MD l => (fix go (l : list (key * mplain)) := match l with [] => true | (_, c) :: r => (no_merge c && go r)%bool end) l
+  | ML b _ => negb b
+  end.
+
+Lemma no_merge_MD l : no_merge (MD l) = forallb (fun kc => no_merge (snd kc)) l.
+Proof. cbn [no_merge]. induction l as [|[k c] r IH]; cbn; [reflexivity|]. now rewrite IH. Qed.
+
+(* without !merge marks the decorated update IS the plain update of C02 *)
+Theorem upd_m_plain : forall m a, no_merge m = true -> upd_m a m = upd a (mforget m).
+Proof.
+  induction m as [v|kv IH|b l IH] using mplain_ind'; intros a Hn.
+  - destruct a; reflexivity.
+  - rewrite no_merge_MD in Hn. rewrite mforget_MD.
+    destruct a as [s|okv|ol].
+    + cbn [upd_m upd]. now rewrite mforget_MD.
+    + rewrite upd_m_MD_PD, upd_PD_PD.
+      assert (L : forall acc, m_dgo kv acc = upd_dgo (map (fun kc => (fst kc, mforget (snd kc))) kv) acc).
+      { induction IH as [|[k v] rest Hv Hrest IHrest]; intro acc; cbn [m_dgo upd_dgo map fst snd]; [reflexivity|].
+        cbn [forallb snd] in Hn. apply andb_true_iff in Hn. destruct Hn as [Hv1 Hn'].
+        destruct (aget k acc) as [ov|]; [|now apply IHrest].
+        cbn in Hv. rewrite (Hv ov Hv1). destruct (upd ov (mforget v)); cbn [bind]; [now apply IHrest|reflexivity]. }
+      now rewrite L.
+    + rewrite upd_m_MD_PL, upd_PL_PD.
+      assert (Ek : mkeys_valid (zlen ol) kv = keys_valid (zlen ol) (map (fun kc => (fst kc, mforget (snd kc))) kv)).
+      { unfold mkeys_valid, keys_valid. clear. induction kv as [|[k v] r IHr]; cbn; [reflexivity|]. now rewrite IHr. }
+      rewrite Ek. destruct (keys_valid _ _); [|reflexivity].
+      assert (L : forall acc, m_lgo kv acc = upd_lgo (map (fun kc => (fst kc, mforget (snd kc))) kv) acc).
+      { clear Ek. induction IH as [|[k v] rest Hv Hrest IHrest]; intro acc; cbn [m_lgo upd_lgo map fst snd]; [reflexivity|].
+        cbn [forallb snd] in Hn. apply andb_true_iff in Hn. destruct Hn as [Hv1 Hn'].
+        destruct (validate_index (zlen acc) k true); try reflexivity.
+        destruct (nth_error acc (Z.to_nat i)) as [ov|]; [|reflexivity].
+        cbn in Hv. rewrite (Hv ov Hv1). destruct (upd ov (mforget v)); cbn [bind]; [now apply IHrest|reflexivity]. }
+      now rewrite L.
+  - cbn [no_merge] in Hn. apply negb_true_iff in Hn. subst b. rewrite mforget_ML. cbn [upd_m]. rewrite upd_other by (left; exact I).
+    now rewrite mforget_ML.
+Qed.
+
+
 Local Open Scope nat_scope.
 Lemma m_igo_elementwise : forall l i acc r, i <= length acc -> m_igo i l acc = Ok r ->
   length r = Nat.max (length acc) (i + length l) /\
